@@ -395,3 +395,40 @@ package dialer
 //@   loop 1
 //@     back collection == nil || recorded($idx)
 //@     exit $idx == 8
+
+// C16 (reload hand-over): every non-nil collection slot takes the alive flag of ITS slot of the snapshot, every
+// group of the slot is told the restored state, and the transition callback fires only where the flag
+// actually changed. All eight slots are walked.
+//@ func (*Dialer).RestoreHealthSnapshot
+//@   anchorsonly
+//@   nonilcheck
+//@   dyncalls noeffect
+//@   modifies *
+//@   ghostfn restored(k int) bool
+//@   at call Bool).Store#1 assert a1 == s.Alive
+//@   at call networkTypeForCollectionIndex#1 assert a0 == idx
+//@   at call snapshotAliveDialerGroupsLocked#1 assert a1 == collection
+//@   at call snapshotAliveDialerGroupsLocked#1 assume-after restored($idx)
+//@   at call NotifyLatencyChange#1 assert a1 == d && a2 == update.alive
+//@   at call notifyAliveTransition#1 assert a1 == update.typ && a2 == update.alive && update.was != update.alive
+//@   loop 1
+//@     back collection == nil || restored($idx)
+//@     exit $idx == 8
+//@   loop 2
+//@     exit $idx == len(updates)
+//@   loop 3
+//@     exit $idx == len(update.groups)
+
+// the fallback candidate of a network type is made alive with both failure counters cleared, its groups are told,
+// and the transition callback fires only if it was not alive before
+//@ func (*Dialer).MarkAliveForReloadFallback
+//@   anchorsonly
+//@   nonilcheck
+//@   dyncalls noeffect
+//@   modifies *
+//@   at call Index#1 assert a0 == typ
+//@   at call Bool).Store#2 assert a1 == true
+//@   at call Int32).Store#1 assert a1 == 0
+//@   at call snapshotAliveDialerGroupsLocked#1 assert a1 == collection
+//@   at call NotifyLatencyChange#1 assert a1 == d && a2 == true
+//@   at call notifyAliveTransition#1 assert a2 == true && !update.was
